@@ -88,7 +88,18 @@ func evalCase(c *hist.Case) (kind, sig, msg string) {
 		own := foreign.At(0, 0, "ref-foreign-own-suffix", 0).Op
 		forged := foreign.At(0, 0, "ref-foreign-forged-suffix", 0).Op
 		forged.UniqueSuffix = c.Suffix
-		add = append(add, own, forged)
+		// ... and handed over without a suffix (the field is optional)
+		unlabelled := foreign.At(0, 0, "ref-foreign-no-suffix", 0).Op
+		unlabelled.UniqueSuffix = ""
+		add = append(add, own, forged, unlabelled)
+		// the DID's own additional operations may come without a suffix as well: nothing changes for them
+		for i, op := range add[:len(add)-3] {
+			if (i+len(c.Ops))%2 == 0 {
+				cp := *op
+				cp.UniqueSuffix = ""
+				add[i] = &cp
+			}
+		}
 	}
 	if len(add) > 0 {
 		opts = append(opts, document.WithAdditionalOperations(add))
